@@ -156,10 +156,16 @@ def copy_slice(chk, prog):
     def sb_drop(ip, st, args, info):
         st.event("builder_dropped")
         return [(st, "ret", UNIT)]
-    ip = Interp(prog, prims={"slice::GcSliceWithHeaderSliceBuilder::slice_ptr": slice_ptr,
+
+    def inner_drop(ip, st, args, info):
+        st.event("inner_builder_dropped")
+        return [(st, "ret", UNIT)]
+    ip = Interp(prog, prims={"<gc::GcBuilder as core::ops::drop::Drop>::drop": inner_drop,
+                             "slice::GcSliceWithHeaderSliceBuilder::slice_ptr": slice_ptr,
                              "core::ptr::mut_ptr::<impl *mut [T]>::len": blen, "core::slice::<impl [T]>::len": elen,
                              "core::ptr::copy_nonoverlapping": copy, "core::intrinsics::copy_nonoverlapping": copy,
                              "slice::GcSliceWithHeaderSliceBuilder::assume_init": assume_init,
+                             "gc::GcBuilder::assume_init": assume_init,
                              SB_DROP: sb_drop}, strict=True)
     ip.lenient_std = True
     st = State()
@@ -192,7 +198,12 @@ def copy_slice(chk, prog):
             if o.kind == "unwind":
                 failed += 1
                 if not any(e[0] == "builder_dropped" for e in o.ev):
-                    probs.append("the length-mismatch panic does not drop the builder: the block leaks")
+                    if any(e[0] == "inner_builder_dropped" for e in o.ev):
+                        probs.append("on the length-mismatch panic only the inner block builder is dropped (the slice "
+                                     "builder was dismantled before the check): the block is released but the header "
+                                     "already written is never destructed")
+                    else:
+                        probs.append("the length-mismatch panic does not drop the builder: the block leaks")
     if not copied:
         probs.append("no path copies the elements")
     if not failed:
